@@ -4,7 +4,7 @@ From Coq Require Import List NArith Bool String Ascii.
 From T4V Require Import Base.Str C14.Model C14.ProofsContent C14.ProofsCards C14.ProofsCase
   C14.ProofsSplit C14.ProofsBlocks C14.ProofsCell C14.ProofsFront C14.ProofsNumber
   C14.ProofsDeck C14.ProofsCell2 C14.ProofsMeta C14.ProofsExpand C14.Exec C14.LinkC15Front.
-From T4V Require C15.Model C14.LinkC15 C09.Model C02.Text C14.LinkC02.
+From T4V Require C15.Model C14.LinkC15 C09.Model C02.Text C14.LinkC02 C14.LinkC02Real.
 From T4V Require Import Base.Scalar.
 Import ListNotations.
 Open Scope string_scope.
@@ -877,3 +877,35 @@ Example C14_density_case_c09_nonvacuous :
   c09_normfloat "-1.5-3" = c09_normfloat "-1.5e-3" /\
   c09_normfloat "-1.50d-3" = "-1.5e-3".
 Proof. repeat split; vm_compute; reflexivity. Qed.
+
+(* ==== round 4 ==== *)
+From Coq Require Import ZArith Lia.
+Open Scope string_scope.
+
+(* LINK C02 at the reals: spellings that MOVE THE DECIMAL POINT. Two tokens
+   that C02's scan_real reads as numerals with the same sign whose mantissas
+   agree once scaled to a common power of ten (m * 10^(x-k) = m' * 10^(x'-k))
+   are read by C02's to_float as the same real number -- so 5.0, .5e1, 50.-1,
+   0.05d2 may stand for each other in C14_surface_reader_linked over RS *)
+Theorem C14_decimal_point_same_value_linked :
+  forall (p p' : string) (s : bool) (m : N) (x : Z) (m' : N) (x' k : Z),
+  C02.Text.scan_real p = Some (C02.Text.mkNum s m x) ->
+  C02.Text.scan_real p' = Some (C02.Text.mkNum s m' x') ->
+  (k <= x)%Z -> (k <= x')%Z ->
+  (Z.of_N m * 10 ^ (x - k) = Z.of_N m' * 10 ^ (x' - k))%Z ->
+  C14.LinkC02.same_value RS p p'.
+Proof. exact C14.LinkC02Real.same_value_scaled. Qed.
+Print Assumptions C14_decimal_point_same_value_linked.
+
+Example C14_decimal_point_nonvacuous :
+  C14.LinkC02.same_value RS "5.0" ".5e1" /\ C14.LinkC02.same_value RS "-5.0" "-0.05d2" /\
+  C14.LinkC02.same_value RS "5.0" "5" /\ C14.LinkC02.same_value RS "2.50" "+2.5E+0" /\
+  C02.Text.scan_real "5.0" <> C02.Text.scan_real ".5e1".
+Proof.
+  split; [|split; [|split; [|split]]].
+  - apply (C14.LinkC02Real.same_value_scaled _ _ false 50 (-1) 5 0 (-1)); try reflexivity; lia.
+  - apply (C14.LinkC02Real.same_value_scaled _ _ true 50 (-1) 5 0 (-1)); try reflexivity; lia.
+  - apply (C14.LinkC02Real.same_value_scaled _ _ false 50 (-1) 5 0 (-1)); try reflexivity; lia.
+  - apply (C14.LinkC02Real.same_value_scaled _ _ false 250 (-2) 25 (-1) (-2)); try reflexivity; lia.
+  - vm_compute. discriminate.
+Qed.
